@@ -855,6 +855,11 @@ where
     /// Gets the root hash at the current epoch.
     #[cfg_attr(feature = "tracing_instrument", tracing::instrument(skip_all))]
     pub async fn get_epoch_hash(&self) -> Result<EpochHash, AkdError> {
+        // Like every other request, this one reads through the cache: hold the guard, so that a
+        // cache flush (change polling) cannot happen between the reads below and the cache fills
+        // they cause, which would leave a node of the old epoch in the flushed cache.
+        let _guard = self.cache_lock.read().await;
+
         let current_azks = self.retrieve_azks().await?;
         let latest_epoch = current_azks.get_latest_epoch();
         let root_hash = current_azks.get_root_hash::<TC, _>(&self.storage).await?;
